@@ -30,6 +30,13 @@
      AInFail      link.go processLocalUpdateFailHTLC
      ERestart     node restart: volatile state lost, circuits reloaded (LoadedFromDisk),
                   unsigned updates dropped, keystones above the committed index trimmed.
+     ELinkRestart ch  the link of channel ch is stopped and started again (peer
+                  disconnect / reconnect: link.go Stop, Start, resumeLink); the switch,
+                  its circuit map and the mailboxes SURVIVE.  The link's unsigned updates
+                  are lost (the channel state is reloaded from disk), keystones above the
+                  committed index are trimmed (Start: TrimOpenCircuits), the mailbox
+                  re-delivers every packet that was not acked by a signature
+                  (Stop: mailBox.ResetPackets).
 
    Definitions only; proofs are in Proofs.v. *)
 From Coq Require Import List NArith ZArith Bool.
@@ -83,7 +90,8 @@ Inductive event :=
 | ELockIn (k : key) (h ai ao oc : N)
 | ECirc (k : key) (a : action)
 | ESig (ch : N)
-| ERestart.
+| ERestart
+| ELinkRestart (ch : N).
 
 Definition set_ist (c : circ) (x : istate) : circ :=
   mkCirc (ck c) (chash c) (ain c) (aout c) (ochan c) (fwd c) (loaded c) (closing c) (pk c)
@@ -158,6 +166,10 @@ Section Model.
       | OCommitted ok' =>
         if key_eqb ok ok' && N.eqb (H p) (chash c)
         then Some (set_os c (OSettled ok p), 0%Z) else None
+      | OSettled ok' p' =>
+        (* the peer retransmits an update_fulfill that was not yet covered by
+           its signature when the connection was lost: same HTLC, same preimage *)
+        if key_eqb ok ok' && N.eqb p p' then Some (c, 0%Z) else None
       | _ => None
       end
     | AOutFail ok =>
@@ -236,6 +248,31 @@ Section Model.
     let ld := match s with CHalf => true | COpen => true | _ => false end in
     mkCirc (ck c) (chash c) (ain c) (aout c) (ochan c) (fwd c) ld false false s o RNone i.
 
+  (* Restart of the single link of channel ch.  Incoming side: unsigned
+     settle/fail lost, the response is still in the mailbox.  Outgoing side:
+     an unsigned add is lost, its keystone trimmed, and the add packet is back
+     in the mailbox (it is acked only by the signature that commits it). *)
+  Definition lrestart_in (ch : N) (c : circ) : circ :=
+    if N.eqb (fst (ck c)) ch then
+      match ist c with
+      | ISettledU _ => set_ist c ILocked
+      | IFailedU => set_ist c ILocked
+      | _ => c
+      end
+    else c.
+
+  Definition lrestart_out (ch : N) (c : circ) : circ :=
+    if N.eqb (ochan c) ch then
+      match os c with
+      | OAdded _ =>
+        mkCirc (ck c) (chash c) (ain c) (aout c) (ochan c) (fwd c) (loaded c) (closing c) true
+               (match cs c with COpen => CHalf | x => x end) ONone (mb c) (ist c)
+      | _ => c
+      end
+    else c.
+
+  Definition lrestart1 (ch : N) (c : circ) : circ := lrestart_in ch (lrestart_out ch c).
+
   Record state := mkState { circs : list circ; bal : N -> Z }.
 
   Fixpoint find (k : key) (l : list circ) : option circ :=
@@ -280,6 +317,7 @@ Section Model.
       else Some (mkState (map (fun c => fst (sig1 ch c)) (circs st))
                          (badd (bal st) ch (sumZ (map (fun c => snd (sig1 ch c)) (circs st)))))
     | ERestart => Some (mkState (map restart1 (circs st)) (bal st))
+    | ELinkRestart ch => Some (mkState (map (lrestart1 ch) (circs st)) (bal st))
     end.
 
   Fixpoint run (st : state) (evs : list event) : option state :=
